@@ -173,6 +173,10 @@ theorem history_sound (U : Universe) (f : Nat → List V → V) (sem : Nat → V
             simp only [step] at hst
             cases hst
             exact ⟨hg, by simp [OutOK]⟩
+          | reset i =>
+            simp only [step] at hst
+            cases hst
+            exact ⟨good_reset U sem s i hg, by simp [OutOK]⟩
         obtain ⟨hg2, hall⟩ := ih s1 _ _ hstep.1 hro
         exact ⟨hg2, hstep.2, hall⟩
 
